@@ -76,6 +76,14 @@ class Ctx:
         only = getattr(self, 'only', None)
         if only is not None and not any(label == l or label.startswith(l) for l in only):
             return None
+        n0 = len(self.obligations)
+        try:
+            return self._guarded(label, fn)
+        finally:
+            for ob in self.obligations[n0:]:            # every obligation knows the contract section it came from
+                ob.meta.setdefault('section', '%s/%s' % (self.prop, label))
+
+    def _guarded(self, label, fn):
         try:
             fn()
             return True
